@@ -1,8 +1,8 @@
-(* C04 — any valid layout written by another implementation is read correctly.  Statements are printed by Check below and compared with C04.expected.  PARTIAL: the layout-independence components are theorems — a chain is read as the concatenation of its sectors in chain order WHATEVER the sector numbers (fragmented, reversed, anywhere in the file), lookup finds exactly the keys of ANY search tree over the CFB order (balanced red-black or degenerate, any slots), listing is the in-order sequence, the order is shortlex on upper-cased UTF-16 units.  Also proved (proofs/WfOpen.v), for ARBITRARY bytes (every element a byte): WHATEVER the independent checker spec/WfImage.v accepts (50 rules; any sector placement, any chain order, any DIFAT layout, any red-black tree shape, any slot assignment) strict open and permissive open succeed, and the state they return has exactly the tables the checker computed from the bytes: FAT, FAT-sector list, DIFAT chain, the decoded directory entries and the MiniFAT (wf_open_opened, wf_open_ok, and the permissive forms).  Proving it exposed seven places where the checker had been weaker than MS-CFB; they are now rules 45-50 and the theorem has no hypothesis besides bytes_ok (the model's byte type is N).  The composition with the abstraction (Represents b t -> abs (open b) = t) is not proved; it is checked on images written by an independent layout synthesiser. *)
+(* C04 — any valid layout written by another implementation is read correctly.  Statements are printed by Check below and compared with C04.expected.  FULL FOR THE MODEL: the layout-independence components are theorems — a chain is read as the concatenation of its sectors in chain order WHATEVER the sector numbers (fragmented, reversed, anywhere in the file), lookup finds exactly the keys of ANY search tree over the CFB order (balanced red-black or degenerate, any slots), listing is the in-order sequence, the order is shortlex on upper-cased UTF-16 units.  Also proved (proofs/WfOpen.v), for ARBITRARY bytes (every element a byte): WHATEVER the independent checker spec/WfImage.v accepts (50 rules; any sector placement, any chain order, any DIFAT layout, any red-black tree shape, any slot assignment) strict open and permissive open succeed, and the state they return has exactly the tables the checker computed from the bytes: FAT, FAT-sector list, DIFAT chain, the decoded directory entries and the MiniFAT (wf_open_opened, wf_open_ok, and the permissive forms).  Proving it exposed seven places where the checker had been weaker than MS-CFB; they are now rules 45-50 and the theorem has no hypothesis besides bytes_ok (the model's byte type is N).  Also proved (proofs/WfContent.v): THE COMPOSITION - abs (open bytes) = logical bytes for every accepted image, where logical is an independent specification function blind to the layout; hence two accepted images with the same logical content open to the same tree and give the same answers to every read-only call (layout independence), with six differently laid-out example images.  What remains outside the proof is the tie of the model to the crate (lockstep + the independent layout synthesiser). *)
 From Cfb.model Require Import Base Names DirEnt State Alloc Dir Mini Store Handle Open Cfb.
 From Cfb.gen Require Import Consts.
 From Cfb.spec Require Import WfImage.
-From Cfb.proofs Require Import NamesProofs ChainProofs DirProofs WalkProofs WfOpen.
+From Cfb.proofs Require Import NamesProofs ChainProofs DirProofs WalkProofs WfOpen WfContent.
 Set Printing Width 110.
 
 (* reading through any good chain returns the bytes of its sectors in chain order *)
@@ -106,6 +106,72 @@ Theorem C04_bytes_ok_is_needed : ltac:(let t := type of WfOpen.Gaps.bytes_ok_nee
 Proof. exact WfOpen.Gaps.bytes_ok_needed. Qed.
 Check C04_bytes_ok_is_needed.
 Print Assumptions C04_bytes_ok_is_needed.
+
+(* THE PROPERTY FOR THE MODEL: for ARBITRARY bytes the checker accepts, strict open succeeds and the abstract tree it exposes (names, kinds, metadata, child order, every stream's bytes) equals logical bytes - a specification function that uses only chain_of, parse_entry and in-order traversal, i.e. is blind to sector placement, chain order, tree balance, colours and slots *)
+Theorem C04_content_of_any_accepted_layout : ltac:(let t := type of wf_abs_logical in exact t).
+Proof. exact wf_abs_logical. Qed.
+Check C04_content_of_any_accepted_layout.
+Print Assumptions C04_content_of_any_accepted_layout.
+
+(* the same tree from permissive open *)
+Theorem C04_content_of_any_accepted_layout_permissive : ltac:(let t := type of wf_abs_logical_permissive in exact t).
+Proof. exact wf_abs_logical_permissive. Qed.
+Check C04_content_of_any_accepted_layout_permissive.
+Print Assumptions C04_content_of_any_accepted_layout_permissive.
+
+(* two accepted images with the same logical content - however differently laid out - open to the same abstract tree *)
+Theorem C04_layout_independence : ltac:(let t := type of same_logical_same_abs in exact t).
+Proof. exact same_logical_same_abs. Qed.
+Check C04_layout_independence.
+Print Assumptions C04_layout_independence.
+
+(* in any combination of open modes *)
+Theorem C04_layout_independence_any_mode : ltac:(let t := type of same_logical_same_abs_any_mode in exact t).
+Proof. exact same_logical_same_abs_any_mode. Qed.
+Check C04_layout_independence_any_mode.
+Print Assumptions C04_layout_independence_any_mode.
+
+(* stage (a): names, kinds, metadata and child order *)
+Theorem C04_namespace_of_any_accepted_layout : ltac:(let t := type of wf_abs_namespace in exact t).
+Proof. exact wf_abs_namespace. Qed.
+Check C04_namespace_of_any_accepted_layout.
+Print Assumptions C04_namespace_of_any_accepted_layout.
+
+(* the in-order listing of any accepted sibling tree is strictly increasing in the CFB order *)
+Theorem C04_logical_tree_is_sorted : ltac:(let t := type of logical_wf_node in exact t).
+Proof. exact logical_wf_node. Qed.
+Check C04_logical_tree_is_sorted.
+Print Assumptions C04_logical_tree_is_sorted.
+
+(* every read-only call and open_stream by path on the opened state answers as the specification does on logical bytes *)
+Theorem C04_api_answers_depend_on_logical_content_only : ltac:(let t := type of wf_api_logical in exact t).
+Proof. exact wf_api_logical. Qed.
+Check C04_api_answers_depend_on_logical_content_only.
+Print Assumptions C04_api_answers_depend_on_logical_content_only.
+
+(* two accepted images with equal logical content give the same answers *)
+Theorem C04_same_logical_same_answers : ltac:(let t := type of same_logical_same_answers in exact t).
+Proof. exact same_logical_same_answers. Qed.
+Check C04_same_logical_same_answers.
+Print Assumptions C04_same_logical_same_answers.
+
+(* non-vacuity: six pairwise different images (different operation orders, V3 and V4, reversed FAT chain, MiniFAT holes, over-long container, a red node, a re-linked sibling tree) *)
+Theorem C04_layout_example_images_differ : ltac:(let t := type of WfContent.LayoutExample.different_images in exact t).
+Proof. exact WfContent.LayoutExample.different_images. Qed.
+Check C04_layout_example_images_differ.
+Print Assumptions C04_layout_example_images_differ.
+
+(* ... all with the same logical content *)
+Theorem C04_layout_example_same_logical : ltac:(let t := type of WfContent.LayoutExample.same_logical in exact t).
+Proof. exact WfContent.LayoutExample.same_logical. Qed.
+Check C04_layout_example_same_logical.
+Print Assumptions C04_layout_example_same_logical.
+
+(* ... to which the theorems are applied *)
+Theorem C04_layout_example_same_answers : ltac:(let t := type of WfContent.LayoutExample.same_answers_all in exact t).
+Proof. exact WfContent.LayoutExample.same_answers_all. Qed.
+Check C04_layout_example_same_answers.
+Print Assumptions C04_layout_example_same_answers.
 
 (* the theorem applied to model-written images of both versions *)
 Theorem C04_wf_open_example_by_theorem : ltac:(let t := type of WfOpen.WfOpenExample.opened_by_theorem in exact t).
